@@ -99,7 +99,7 @@ func (p *Prog) identityPredicate(fn *ssa.Function) bool {
 			if cst.Value.String() == "true" {
 				// must be guarded by a byte comparison of param[i]
 				for _, g := range guardsOf(r.Block()) {
-					if b, ok := g.If.Cond.(*ssa.BinOp); ok && b.Op == token.EQL && g.Branch {
+					if b := eqOnEdge(g.If.Cond, g.Branch); b != nil {
 						if k, ok := constInt(b.Y); ok {
 							bytesTrue[k] = true
 						}
@@ -183,54 +183,87 @@ func enteringConds(b *ssa.BasicBlock) []edgeCond {
 	return out
 }
 
-// rawTextBranch: the block is entered only when a tag name equals "script" or "style" (directly or
-// through a module predicate whose constants are within {script, style}).
-func (p *Prog) rawTextBranch(b *ssa.BasicBlock) (bool, string) {
+// eqConstCond: the condition with this polarity means `x == "s"` (x == s taken, or x != s not taken).
+func eqConstCond(cond ssa.Value, want bool) (x ssa.Value, s string, ok bool) {
+	bo, isB := cond.(*ssa.BinOp)
+	if !isB {
+		return nil, "", false
+	}
+	if !((bo.Op == token.EQL && want) || (bo.Op == token.NEQ && !want)) {
+		return nil, "", false
+	}
+	if k, ok := constString(bo.Y); ok {
+		return bo.X, k, true
+	}
+	if k, ok := constString(bo.X); ok {
+		return bo.Y, k, true
+	}
+	return nil, "", false
+}
+
+// rawTextCond: the condition (with polarity) says a tag name is "script" or "style" — directly or
+// through a module predicate whose constants are within {script, style}. why names what else it accepts.
+func (p *Prog) rawTextCond(cond ssa.Value, want bool) (ok bool, why string) {
+	if cond == nil {
+		return false, ""
+	}
+	if _, s, isEq := eqConstCond(cond, want); isEq {
+		if s == "script" || s == "style" {
+			return true, ""
+		}
+		return false, "tag \"" + s + "\""
+	}
+	if cl, isCall := cond.(*ssa.Call); isCall && want {
+		if callee := cl.Call.StaticCallee(); callee != nil && inModule(callee) && len(callee.Params) == 1 {
+			cs := constsComparedWithParam(callee, 0)
+			within := len(cs) > 0
+			for _, s := range cs {
+				if s != "script" && s != "style" {
+					within = false
+					why = "helper " + shortName(callee) + " also accepts \"" + s + "\""
+				}
+			}
+			return within, why
+		}
+	}
+	return false, ""
+}
+
+// enteredOnlyUnder: some dominator of b (or b itself) is entered exclusively through conditional edges
+// that accept() holds for — a single guard, or the edges of a short-circuit `a || b`.
+func enteredOnlyUnder(b *ssa.BasicBlock, accept func(cond ssa.Value, want bool) bool) bool {
 	for x := b; x != nil; x = x.Idom() {
 		ecs := enteringConds(x)
 		if len(ecs) == 0 {
 			continue
 		}
 		all := true
-		why := ""
 		for _, ec := range ecs {
-			okEdge := false
-			if ec.cond == nil {
-				all = false
-				continue
-			}
-			if bo, ok := ec.cond.(*ssa.BinOp); ok && bo.Op == token.EQL && ec.want {
-				if s, ok := constString(bo.Y); ok && (s == "script" || s == "style") {
-					okEdge = true
-				} else if ok {
-					why = "tag \"" + s + "\""
-				}
-			}
-			if cl, ok := ec.cond.(*ssa.Call); ok && ec.want {
-				if callee := cl.Call.StaticCallee(); callee != nil && inModule(callee) && len(callee.Params) == 1 {
-					cs := constsComparedWithParam(callee, 0)
-					within := len(cs) > 0
-					for _, s := range cs {
-						if s != "script" && s != "style" {
-							within = false
-							why = "helper " + shortName(callee) + " also accepts \"" + s + "\""
-						}
-					}
-					okEdge = within
-				}
-			}
-			if !okEdge {
+			if ec.cond == nil || !accept(ec.cond, ec.want) {
 				all = false
 			}
 		}
 		if all {
-			return true, ""
-		}
-		if why != "" {
-			return false, why
+			return true
 		}
 	}
-	return false, ""
+	return false
+}
+
+// rawTextBranch: the block is entered only when a tag name equals "script" or "style".
+func (p *Prog) rawTextBranch(b *ssa.BasicBlock) (bool, string) {
+	why := ""
+	ok := enteredOnlyUnder(b, func(cond ssa.Value, want bool) bool {
+		r, w := p.rawTextCond(cond, want)
+		if w != "" && why == "" {
+			why = w
+		}
+		return r
+	})
+	if ok {
+		return true, ""
+	}
+	return false, why
 }
 
 // isEscapeCall: html.EscapeString of the standard library or of x/net/html (same function).
@@ -321,6 +354,41 @@ func init() {
 				}
 				return ""
 			}
+			// a raw value that reaches a merge (`text := x; if … { text = Escape(x) }`) only along edges taken
+			// under an exempting condition is harmless past the merge
+			merged := 0
+			type phiEdge struct {
+				phi *ssa.Phi
+				i   int
+			}
+			mergedSeen := map[phiEdge]bool{}
+			t.PhiEdge = func(phi *ssa.Phi, i int, v ssa.Value) bool {
+				pr := phi.Block().Preds[i]
+				accept := func(cond ssa.Value, want bool) bool {
+					if r, _ := p.rawTextCond(cond, want); r {
+						return true
+					}
+					return p.identityGuardOn(cond, want, v)
+				}
+				exempt := enteredOnlyUnder(pr, accept)
+				if ifi, ok := pr.Instrs[len(pr.Instrs)-1].(*ssa.If); ok && !exempt {
+					cnd, flip := stripNot(ifi.Cond)
+					want := (pr.Succs[0] == phi.Block()) != flip
+					if pr.Succs[0] != pr.Succs[1] && accept(cnd, want) {
+						exempt = true
+					}
+				}
+				if exempt && mergedSeen[phiEdge{phi, i}] {
+					return false
+				}
+				if exempt {
+					mergedSeen[phiEdge{phi, i}] = true
+					merged++
+					c.ok(fmt.Sprintf("%s: raw value merged under an exempting condition#%d", shortName(phi.Parent()), merged), p.instrPos(phi), "edge taken only in the script/style branch or under an identity guard")
+					return false
+				}
+				return true
+			}
 			seeds := map[ssa.Value]seedInfo{}
 			for _, fn := range sortedFuncs(ser) {
 				eachInstr(fn, func(in ssa.Instruction) {
@@ -340,7 +408,7 @@ func init() {
 						fa := ld.X.(*ssa.FieldAddr)
 						isText := false
 						for _, ec := range allGuards(ld.Block()) {
-							if b, ok := ec.cond.(*ssa.BinOp); ok && b.Op == token.EQL && ec.want {
+							if b := eqOnEdge(ec.cond, ec.want); b != nil {
 								if k, ok := constInt(b.Y); ok && k == 1 { // html.TextNode
 									if tl, ok := b.X.(*ssa.UnOp); ok {
 										if tfa, ok := tl.X.(*ssa.FieldAddr); ok && fieldName(tfa.X.Type(), tfa.Field) == "Type" && sameNodeValue(tfa.X, fa.X) {
@@ -401,7 +469,7 @@ func init() {
 				if exempt == "" {
 					// doctype name / identifiers: produced by the parser from the declaration, not a text or attribute sink of the property
 					for _, ec := range allGuards(h.At.Block()) {
-						if b, ok := ec.cond.(*ssa.BinOp); ok && b.Op == token.EQL && ec.want {
+						if b := eqOnEdge(ec.cond, ec.want); b != nil {
 							if k, ok := constInt(b.Y); ok && k == 5 {
 								if ld, ok := b.X.(*ssa.UnOp); ok {
 									if fa, ok := ld.X.(*ssa.FieldAddr); ok && fieldName(fa.X.Type(), fa.Field) == "Type" {
@@ -819,14 +887,19 @@ func (p *Prog) carrierGuarded(h TaintHit, seeds map[ssa.Value]seedInfo) string {
 		if !strings.Contains(h.Why, p.instrPos(in)) {
 			continue
 		}
-		for _, ec := range allGuards(in.Block()) {
-			if b, ok := ec.cond.(*ssa.BinOp); ok && b.Op == token.EQL && ec.want {
-				if s, ok := constString(b.Y); ok && (s == carrierHTML || s == carrierText) {
-					if f := loadedField(b.X); f != nil && fieldIs(f, "Key") {
-						found = s
-					}
-				}
+		carrier := ""
+		if enteredOnlyUnder(in.Block(), func(cond ssa.Value, want bool) bool {
+			x, s, ok := eqConstCond(cond, want)
+			if !ok || (s != carrierHTML && s != carrierText) {
+				return false
 			}
+			if f := loadedField(x); f == nil || !fieldIs(f, "Key") {
+				return false
+			}
+			carrier = s
+			return true
+		}) {
+			found = carrier
 		}
 	}
 	return found
